@@ -22,9 +22,9 @@ func init() {
 	fw.Register(&fw.Check{
 		ID:    "C07",
 		Level: "model_checking",
-		Rule: "explicit-state search over histories of one real VM: operations = Run(s) for 17 scripts chosen one per termination kind (return, uncaught error at depth 0 and 3 with abandoned try frames, caught error, recovered Go panic, " +
+		Rule: "explicit-state search over histories of one real VM: operations = Run(s) for 18 scripts chosen one per termination kind (return, uncaught error at depth 0 and 3 with abandoned try frames, caught error, recovered Go panic, " +
 			"value-stack overflow inside try, frame overflow, abort from a callback, error thrown in finally, imports with module mutation, closure value, un-released Invoker, panic propagated with recovery off), Clear(), SetRecover(on/off); " +
-			"every history of <= 2 (thorough 3) operations is followed by (Clear | nothing) and then by each of 27 observed runs (10 probes + the 17 scripts). Oracle: the observed run's outcome (value, probe log, error name+message) equals its outcome on a new VM; " +
+			"every history of <= 2 (thorough 3) operations is followed by (Clear | nothing) and then by each of 28 observed runs (10 probes + the 18 scripts). Oracle: the observed run's outcome (value, probe log, error name+message) equals its outcome on a new VM; " +
 			"the structural fingerprint of every Bytecode involved is unchanged after every transition. states = distinct canonical VM dumps (private state read by reflection), transitions = operations executed, traces = observed runs compared; " +
 			"non-trivial = the VM dump before the observed run differs from a new VM's (residue really existed)",
 		Run: run7,
@@ -71,6 +71,7 @@ var scripts = []script{
 	{"abort-at-depth3-with-try-frames", pre + "var (f1, f2, f3); f3 = func() { ABORT(); for { } }; f2 = func() { try { return [f3()] } catch e { L(21) } }; f1 = func() { try { return [f2()] } catch e { L(22) } }; return [f1()]", nil},
 	{"go-panic-at-depth3-with-try-frames", pre + "var (f1, f2, f3); f3 = func() { return [PANIC()] }; f2 = func() { try { return [f3()] } finally { L(23) } }; f1 = func() { try { return [f2()] } finally { L(24) } }; return [f1()]", nil},
 	{"stack-overflow-at-depth3-with-try-frames", pre + "o := 1; var (f1, f2, f3); f3 = func() { return [" + strings.Repeat("o, ", 2060) + "o] }; f2 = func() { try { return [f3()] } catch e { L(25) } }; f1 = func() { try { return [f2()] } catch e { L(26) } }; return [f1()]", nil},
+	{"abort-inside-pooled-callback", pre + "g := func() { try { ABORT(); for { } } finally { L(27) } }; return [CB(g)]", nil},
 	{"nested-try-return", pre + "f := func() { for i := 0; i < 3; i++ { try { try { if i == 1 { continue }; if i == 2 { return i } } finally { L(i) } } finally { L(10 + i) } }; return -1 }; return f()", nil},
 }
 
